@@ -31,7 +31,9 @@ WORK = os.path.join(CACHE, "fmt")
 ALPHA = ["\n", "\r", "\t", "a", "中", "é"]
 EXTRA = [" ", "\x00", "\x1f", "\x7f", "ß", "∆", "Z", "0", "b",
          # display-width classes: East-Asian-ambiguous (width 1, width_cjk 2), combining (0), emoji (2)
-         "§", "—", "°", "×", "\u0301", "\U0001F600"]
+         "§", "—", "°", "×", "\u0301", "\U0001F600",
+         # C1 control characters: `char::is_control` holds of them, but they have no picture and must pass through unchanged
+         "\u0080", "\u0085", "\u009b", "\u009f"]
 WIDTHS = ["a", "§", "中", "\u0301", "\n"]
 
 # decidable classes of the candidate findings: name -> (classifier(kind, sb, a, b), what)
